@@ -17,9 +17,9 @@ import (
 
 func init() {
 	core.Register(&core.Check{
-		ID: "C21",
-		Rule: "cases: (a) every Marshal output of the C20 workload (all linked types x 64 option sets): accepted by the RFC 8259 recogniser and by encoding/json.Valid, and the compact and Multiline/Indent outputs of one message parse (UseNumber) to the same JSON value; (b) inputs offered to protojson.Unmarshal with targets structpb.Value (any JSON value), a typed message, a typed message with DiscardUnknown (skip path) and Any: marshal outputs mutated at token level (bad numbers, escapes, literals, structure), token soups, and every byte string up to length 3 (quick) / 4 (thorough) over a 22-character JSON alphabet placed at top level, inside an array, as an object value and as an unknown-field value; every accepted input must be valid JSON per both judges; distinct = distinct documents; non-trivial = document is not a bare literal",
-		Assume: []string{"model/jsonref.go (RFC 8259 grammar recogniser)", "encoding/json.Valid and Decoder.UseNumber of the Go standard library"},
+		ID:         "C21",
+		Rule:       "cases: (a) every Marshal output of the C20 workload (all linked types x 64 option sets): accepted by the RFC 8259 recogniser and by encoding/json.Valid, and the compact and Multiline/Indent outputs of one message parse (UseNumber) to the same JSON value; (b) inputs offered to protojson.Unmarshal with targets structpb.Value (any JSON value), a typed message, a typed message with DiscardUnknown (skip path) and Any: marshal outputs mutated at token level (bad numbers, escapes, literals, structure), token soups, and every byte string up to length 3 (quick) / 4 (thorough) over a 22-character JSON alphabet placed at top level, inside an array, as an object value and as an unknown-field value; every accepted input must be valid JSON per both judges; distinct = distinct documents; non-trivial = document is not a bare literal",
+		Assume:     []string{"model/jsonref.go (RFC 8259 grammar recogniser)", "encoding/json.Valid and Decoder.UseNumber of the Go standard library"},
 		Exhaustive: func(tier string) bool { return false },
 		Batches: func(tier string) []core.Batch {
 			var bs []core.Batch
@@ -136,9 +136,15 @@ var c21Targets = []c21Target{
 	{"typed", func() proto.Message { return gen.TypeByName("goproto.proto.test3.TestAllTypes").New().Interface() }, protojson.UnmarshalOptions{}, func(d string) string { return `{"singularNestedMessage":` + d + `}` }},
 	{"typed", func() proto.Message { return gen.TypeByName("goproto.proto.test3.TestAllTypes").New().Interface() }, protojson.UnmarshalOptions{}, func(d string) string { return d }},
 	{"typed", func() proto.Message { return gen.TypeByName("pb2.KnownTypes").New().Interface() }, protojson.UnmarshalOptions{}, func(d string) string { return `{"optDuration":` + d + `,"optInt64":` + d + `,"optBool":` + d + `}` }},
-	{"any", func() proto.Message { return gen.TypeByName("google.protobuf.Any").New().Interface() }, protojson.UnmarshalOptions{}, func(d string) string { return `{"@type":"type.googleapis.com/google.protobuf.Value","value":` + d + `}` }},
-	{"any", func() proto.Message { return gen.TypeByName("google.protobuf.Any").New().Interface() }, protojson.UnmarshalOptions{}, func(d string) string { return `{"value":` + d + `,"@type":"type.googleapis.com/google.protobuf.Value"}` }},
-	{"any", func() proto.Message { return gen.TypeByName("google.protobuf.Any").New().Interface() }, protojson.UnmarshalOptions{DiscardUnknown: true}, func(d string) string { return `{"zz":` + d + `,"@type":"type.googleapis.com/goproto.proto.test3.TestAllTypes"}` }},
+	{"any", func() proto.Message { return gen.TypeByName("google.protobuf.Any").New().Interface() }, protojson.UnmarshalOptions{}, func(d string) string {
+		return `{"@type":"type.googleapis.com/google.protobuf.Value","value":` + d + `}`
+	}},
+	{"any", func() proto.Message { return gen.TypeByName("google.protobuf.Any").New().Interface() }, protojson.UnmarshalOptions{}, func(d string) string {
+		return `{"value":` + d + `,"@type":"type.googleapis.com/google.protobuf.Value"}`
+	}},
+	{"any", func() proto.Message { return gen.TypeByName("google.protobuf.Any").New().Interface() }, protojson.UnmarshalOptions{DiscardUnknown: true}, func(d string) string {
+		return `{"zz":` + d + `,"@type":"type.googleapis.com/goproto.proto.test3.TestAllTypes"}`
+	}},
 }
 
 // c21Offer gives doc to one target and judges acceptance.
